@@ -10,6 +10,8 @@ use serde_json::json;
 pub enum Hop {
   Next,
   NextBy,
+  /// next_by(f) where f itself subscribes a new subscriber before it returns its result
+  NextBySub,
   Clone,
   Sub,
   Unsub(usize),
@@ -53,8 +55,26 @@ macro_rules! exec {
     let mut late_join = false;
     for op in $h {
       match op {
-        Hop::Next | Hop::NextBy => {
-          let v = if *op == Hop::Next {
+        Hop::Next | Hop::NextBy | Hop::NextBySub => {
+          let mut joined_in_f: Option<usize> = None;
+          let v = if *op == Hop::NextBySub && !finished && unsubs.len() < 5 {
+            // the newcomer joins while f is being evaluated: it is handed the value current at
+            // that moment and then, like everybody else, f's result
+            let id = 1 + unsubs.len() as u32;
+            let cell: std::rc::Rc<std::cell::RefCell<Option<Box<dyn FnOnce()>>>> = Default::default();
+            let (c2, b2, l2) = (cell.clone(), b.clone(), log.clone());
+            Behavior::<V, E>::next_by(&mut b, move |x| {
+              let s = b2.clone().actual_subscribe(Probe::new(id, &l2));
+              *c2.borrow_mut() = Some(Box::new(move || s.unsubscribe()));
+              V::I(x.int() * 2 + 1)
+            });
+            unsubs.push(cell.borrow_mut().take());
+            allowed.push(vec![vec![N::Next(cur.clone())]]);
+            active.push(true);
+            joined_in_f = Some(unsubs.len() - 1);
+            late_join = true;
+            V::I(cur.int() * 2 + 1)
+          } else if *op == Hop::Next {
             item += 1;
             let v = V::I(item);
             Observer::<V, E>::next(&mut b, v.clone());
@@ -234,7 +254,8 @@ pub fn run(cfg: &Cfg, rep: &mut Report) {
     let h: Vec<Hop> = (0..n)
       .map(|_| match r.below(16) {
         0..=4 => Hop::Next,
-        5 | 6 => Hop::NextBy,
+        5 => Hop::NextBy,
+        6 => if r.chance(1, 2) { Hop::NextBySub } else { Hop::NextBy },
         7 => Hop::Clone,
         8..=10 => Hop::Sub,
         11 => Hop::Unsub(r.below(3)),
